@@ -331,9 +331,11 @@ def relayout(rng, text, tb):
     out = []
     for i, l in enumerate(lexemes):
         w = l
-        if is_word_start(l[0]) and go_upper(l) in tb.kw and l.isascii() and go_upper(l) not in getattr(tb, "ident_like", ()):
-            m = rng.randint(0, 2)
-            w = l.upper() if m == 0 else l.lower() if m == 1 else l.swapcase()
+        if is_word_start(l[0]) and l.isascii() and ((go_upper(l) in tb.kw and go_upper(l) not in getattr(tb, "ident_like", ()))
+                                                    or go_upper(l) in getattr(tb, "conv_kw", ())):
+            m = rng.randint(0, 4)
+            w = (l.upper() if m == 0 else l.lower() if m == 1 else l.swapcase() if m == 2 else l.capitalize() if m == 3
+                 else "".join(rng.choice([c.lower(), c.upper()]) for c in l))
         if i > 0:
             s = gen_sep(rng, rng.choice(SEP_CLASSES[1:]))
             prev = out[-1]
